@@ -352,3 +352,5 @@ Theorem c01_entry_point_counts :
   length (list_prod all_kinds [TrySend; Plain; Quiet]) + 2 = 23 /\
   length (filter defined_pair (list_prod all_kinds builtin_args)) + 2 = 24.
 Proof. exact entry_point_counts. Qed.
+
+(* Note after the second read-only review of these pins (selftest/audit/REVIEW-2-2026-10-02.md): c01_entry_point_counts: the sums 22+1, 21+2 and 22+2 only record the candidate readings of the '23 entry points' of the property text (+1 = the user-defined route, +2 = incr and decr); c01_v0_agrees / _iff / _differs are one fact in three forms. *)
